@@ -162,7 +162,9 @@ var vfClientOps = []vfClientOp{
 		if v == nil {
 			return "nil", nil
 		}
-		return fmt.Sprintf("%+v", *v), nil
+		w := *v
+		w.ID = 0
+		return fmt.Sprintf("%+v", w), nil
 	}},
 	{Name: "Open", Run: func(s *vfSess, _ *sftp.File) (string, error) {
 		f, err := s.c.Open("/file")
